@@ -42,7 +42,7 @@ func run(e *harness.Env) {
 		"sentences of 60/150/200/250 bytes ending in '. ', two multi-byte-script sentences (Greek/Cyrillic/accented Latin/CJK) ending in '. ', '? ', newline, blank line, NBSP, NEL, dotted abbreviation, decimal number} with one repetition factor r in {1,8,40} for the repeatable segments. "+
 		"split (n<=%d%s): texts x unit{characters,tokens,words,sentences,paragraphs} x limit{1,2,5,50,200,800} (sentences/paragraphs only 1,2,5 and words up to 200: larger ones cannot engage on texts of this size) x TokensPerChar{0.25,1,0 (token unit only)}; "+
 		"point (n<=%d): FindSplitPointAt and FindSplitPoint on the same grid; bnd: sequences of <=%d paragraph blocks out of 10 with BoundaryDetector boundaries x SplitAtSemanticBoundaries x the grid; "+
-		"ovl (n<=%d): texts x strategy{none,character,sentence,paragraph} x size{1,2,10,100} x PreserveWords x MaxOverlap{0,50,300,500} x MinOverlap{0,20}; "+
+		"ovl (n<=%d; quick additionally every 3-segment sequence over {2 multi-byte sentences, ASCII sentence, spaced CJK, emoji, word}): texts x strategy{none,character,sentence,paragraph} x size{1,2,10,100} x PreserveWords x MaxOverlap{0,50,300,500} x MinOverlap{0,20}; "+
 		"apply: sequences of 2..%d position-marked chunk texts out of 10 kinds (two of them multi-byte-script sentences) x the overlap grid x IncludeHeadingContext; "+
 		"chunker (n<=%d): one-page documents {paragraph, intro+paragraph, H1+paragraph} x MaxChunkSize{1,2,5,50,200,800} x OverlapSize{0,1,2,10,100} x OverlapSentences, Chunk and ChunkWithOverlapEnabled; "+
 		"docchunk (n<=%d): ChunkDocumentWithConfig on {paragraph, intro+paragraph} x the size grid. "+
@@ -481,9 +481,23 @@ func checkOverlap(ov string, ownStripped string, maxOverlap int) (string, string
 
 // ---- (ovl) OverlapGenerator.GenerateOverlap ------------------------------------------------
 
+// overlap texts of the quick tier one segment longer than the full-alphabet bound: every mix of
+// multi-byte-script sentences, ASCII sentences, spaced CJK, emoji and plain words (3 sentences are
+// needed before a 2-sentence overlap starts anywhere but at the beginning of the text)
+var overlapAlpha = []string{"mbs", "mbs3", "s60", "cjkw", "emo", "w"}
+
 func overlapSpace(e *harness.Env, L int) {
 	grid := overlapGrid()
-	forTexts(allAlpha(), 0, L, []int{1, 8, 40}, func(t *text) {
+	body := overlapBody(e, grid)
+	forTexts(allAlpha(), 0, L, []int{1, 8, 40}, body)
+	if !e.Thorough() {
+		forTexts(alphaIndex(overlapAlpha...), L+1, L+1, []int{1, 8}, body)
+		e.Note("ovl_extra", fmt.Sprintf("all sequences of exactly %d segments over %v, r in {1,8}", L+1, overlapAlpha))
+	}
+}
+
+func overlapBody(e *harness.Env, grid []ovlCfg) func(t *text) {
+	return func(t *text) {
 		for _, oc := range grid {
 			desc := "space=ovl " + t.part() + " " + oc.part
 			if !e.Own(desc) {
@@ -515,7 +529,7 @@ func overlapSpace(e *harness.Env, L int) {
 				e.Pass(desc, true, "ovl:proper-suffix")
 			}
 		}
-	})
+	}
 }
 
 // ---- (apply) ApplyOverlapToChunks ----------------------------------------------------------
